@@ -58,7 +58,7 @@ def beads_file(rng, inst, path, npop=4, per=140, floatdata=False, voltage=None, 
 
 
 def sample_file(rng, inst, path, n=None, floatdata=False, voltage=None, amp_log=True, with_time=True, time_info='full',
-                fl_overrides=None):
+                fl_overrides=None, col_perm=None):
     R = 1024
     n = n or int(rng.integers(450, 900))
     fsc, ssc = blob(rng, n, R)
@@ -107,6 +107,14 @@ def sample_file(rng, inst, path, n=None, floatdata=False, voltage=None, amp_log=
         pne = ['4,1', '4,1'] + [('4,1' if amp_log else '0,0')] * len(inst['fl']) + (['0,0'] if with_time else [])
         spec = dict(version='FCS3.0', datatype='I', widths=[16] * D, events=ev, ranges=[R] * D, names=names, pne=pne,
                     pnv=voltage or [str(400 + 10 * j) for j in range(D)], png=[None] * D, extra=extra)
+    if col_perm is not None:
+        # the same channels recorded in another column order than in the beads file (names, not positions, identify them)
+        D_ = len(spec['names'])
+        perm = [int(x) for x in col_perm(D_)]
+        for k in ('names', 'pne', 'pnv', 'png', 'widths', 'ranges'):
+            spec[k] = [spec[k][i] for i in perm]
+        spec['events'] = [[row[i] for i in perm] for row in spec['events']]
+        fl_overrides = None
     for j, ov in (fl_overrides or {}).items():
         # settings of single fluorescence channels (0 = first fluorescence channel): {'pnv': '999', 'pne': '0,0'}
         for k, v in ov.items():
@@ -130,7 +138,7 @@ def join(rng, items):
 
 
 def experiment(rng, base_dir, n_inst=None, n_beads=None, n_samples=None, units_pool=UNITS, float_frac=0.3,
-               npop=4, fractions=(0.3, 0.5, 0.85, 1.0, 0.0, 1), nfl=None, force_float_first=False, zero_fraction_first=False):
+               npop=4, fractions=(0.3, 0.5, 0.85, 1.0, 0.0, 1), nfl=None, force_float_first=False, zero_fraction_first=False, permute_columns=0.3):
     """Writes FCS files under base_dir and returns (instruments_df, beads_df, samples_df, info)."""
     os.makedirs(base_dir, exist_ok=True)
     n_inst = n_inst or int(rng.integers(1, 4))
@@ -171,7 +179,8 @@ def experiment(rng, base_dir, n_inst=None, n_beads=None, n_samples=None, units_p
             ti, wt = 'full', True           # a row that keeps no events, on a file with a time channel and a time step
         info['sample_specs']['S%d' % k] = sample_file(rng, it, os.path.join(base_dir, fn), with_time=wt, time_info=ti,
                                                       floatdata=('D' if (rng.random() < 0.4 or (force_float_first == 'D' and k == 0))
-                                                                 else True) if isf else False)
+                                                                 else True) if isf else False,
+                                                      col_perm=(lambda D_: rng.permutation(D_)) if rng.random() < permute_columns else None)
         row = {'ID': 'S%d' % k, 'Instrument ID': it['ID'], 'Beads ID': None, 'File Path': fn,
                'Gate Fraction': 0 if (k == 0 and zero_fraction_first) else fractions[int(rng.integers(len(fractions)))],
                'Strain': 'strain %d' % k}
